@@ -521,7 +521,14 @@ def close_merge_rules(ctx, ev):
             and isinstance(e.args[0], App) and e.args[0].op == "call" and isinstance(e.args[0].args[0], Ref)
             and e.args[0].args[0].obj.name == "add_cache_slot"]
     k = App("elem", (it,))
-    good = len(adds) == 1 and adds[0][0].args[2] == k and adds[0][0].args[3] == App("idx", (src[0], k)) if src else False
+    if src and it == App("meth:items", (src[0],)):
+        # for key, value in cache.items(): the pair's own key and value
+        pair = k
+        k = App("unpack", (pair, Const(0), Const(2)))
+        own = (App("unpack", (pair, Const(1), Const(2))), App("idx", (src[0], k)))
+    else:
+        own = (App("idx", (src[0], k)),) if src else ()
+    good = len(adds) == 1 and adds[0][0].args[2] == k and adds[0][0].args[3] in own if src else False
     R.check("C10-D3b merge re-adds every pair", bool(good), "add_cache_slot(k, cache[k]) with the key's own value", mod=mf.module, node=mf.node,
             function=mq, expected="self.add_cache_slot(k, cache_dict[k])", found=repr(adds)[:240])
     # the only skip condition is an empty key
@@ -641,7 +648,12 @@ def _merge_skip_only_empty(mf) -> bool:
     if len(loops) != 1:
         return False
     loop = loops[0]
-    tgt = ast.unparse(loop.target)
+    # the name of the key: `for k in d` / `for k in d.keys()` / `for k, v in d.items()`
+    if isinstance(loop.target, ast.Tuple) and len(loop.target.elts) == 2 and isinstance(loop.iter, ast.Call) and isinstance(loop.iter.func, ast.Attribute) \
+            and loop.iter.func.attr == "items" and isinstance(loop.target.elts[0], ast.Name):
+        tgt = loop.target.elts[0].id
+    else:
+        tgt = ast.unparse(loop.target)
     for n in ast.walk(loop):
         if isinstance(n, (ast.Continue, ast.Break)):
             # find the enclosing If inside the loop
